@@ -12,7 +12,7 @@ for b in (0, 1, 2):
 for v in (0, 1):
     A(E("q", "mvhd_v%d" % v, "MvhdBox", "any_mvhd(%d)" % v, "ref_mvhd", 108 + 12 * v, 26))
     A(E("q", "tkhd_v%d" % v, "TkhdBox", "any_tkhd(%d)" % v, "ref_tkhd", 92 + 12 * v, 3))
-    A(E("q" if v == 0 else "t", "mdhd_v%d" % v, "MdhdBox", "any_mdhd(%d)" % v, "ref_mdhd", 32 + 12 * v, 5))
+    A(E("t", "mdhd_v%d" % v, "MdhdBox", "any_mdhd(%d)" % v, "ref_mdhd", 32 + 12 * v, 5))
     A(E("q", "mehd_v%d" % v, "MehdBox", "any_mehd(%d)" % v, "ref_mehd", 16 + 4 * v, 3))
     A(E("q", "tfdt_v%d" % v, "TfdtBox", "any_tfdt(%d)" % v, "ref_tfdt", 16 + 4 * v, 3))
     for e in (0, 1, 2):
@@ -54,7 +54,7 @@ for m in range(64):
         A(E("q" if quick else "t", "trun_opt%03x_n%d" % (opt, n), "TrunBox", "any_trun::<%d>(0x%x)" % (n, opt), "ref_trun", size, n + 3))
 for v in (0, 1):
     for (s, vv, m) in ((0, 0, 0), (1, 2, 3), (3, 0, 1)):
-        t = "q" if (s, vv, m, v) == (1, 2, 3, 1) else "t"
+        t = "t"
         A(E(t, "emsg_v%d_s%d_v%d_m%d" % (v, s, vv, m), "EmsgBox", "any_emsg::<%d, %d, %d>(%d)" % (s, vv, m, v), "ref_emsg",
             12 + 4 + (12 if v == 0 else 16) + s + 1 + vv + 1 + m, max(s, vv, m) + 4))
 A(E("q", "emsg_v0_s1_v2_m0", "EmsgBox", "any_emsg::<1, 2, 0>(0)", "ref_emsg", 12 + 4 + 12 + 2 + 3, 7))
